@@ -70,3 +70,41 @@ Print Assumptions C11_total_needs_family.
 Theorem C11_hypotheses_satisfiable : schema_ok ex_schema ex_R /\ family_refs ex_schema ex_R /\ ex_R ex_rt.
 Proof. exact (conj ex_schema_ok (conj ex_family_refs ex_R_root)). Qed.
 Print Assumptions C11_hypotheses_satisfiable.
+
+(* ---- refinement to the reference diff (proofs in Proofs/RefDiff{Base,Walk,OneSided,Both,
+   Laws}.v): for every pair of valid objects (duplicates allowed) the three sets hold
+   exactly the paths of the independent reference diff (Spec/RefDiff.v), up to Path.Equals.
+   [lists_pure]: an atom that has a granular list has no other member -- true of the
+   generated family (Kubernetes deduced types have atomic lists); without it the statement
+   is false (second theorem: a granular map against a granular list under one type). ---- *)
+From SMD Require Import Model.Merge Spec.PathsAsSets Spec.Resolve Spec.RefDiff Proofs.RefDiffBoth Proofs.RefDiffLaws.
+Theorem C11_compare_is_the_reference_diff :
+  forall (s : schema) (R : typeref -> Prop) (tr : typeref) (l r : value) (c : comparison3),
+         schema_ok s R ->
+         family_refs s R ->
+         lists_pure s R ->
+         R tr ->
+         wf_value l = true ->
+         wf_value r = true ->
+         conforms s tr true l = true ->
+         conforms s tr true r = true ->
+         compare s tr l r = Some c ->
+         forall p : path,
+         wf_path p = true ->
+         p <> [] ->
+         ps_has p (removed c) = pmem p (rd_removed (ref_diff s tr l r)) /\
+         ps_has p (modified c) = pmem p (rd_modified (ref_diff s tr l r)) /\
+         ps_has p (added c) = pmem p (rd_added (ref_diff s tr l r)).
+Proof. exact compare_refines_ref_diff_restricted. Qed.
+Print Assumptions C11_compare_is_the_reference_diff.
+
+Theorem C11_reference_diff_needs_pure_lists :
+  ~ refines_statement.
+Proof. exact compare_refines_ref_diff_refuted. Qed.
+Print Assumptions C11_reference_diff_needs_pure_lists.
+
+Theorem C11_lists_pure_satisfiable :
+  lists_pure Examples.ex_schema CompareLaws.ex_R.
+Proof. exact ex_lists_pure. Qed.
+Print Assumptions C11_lists_pure_satisfiable.
+
